@@ -25,8 +25,7 @@ import xgi
 
 from .. import c08_lib as L
 from .. import c08_translate as T
-from ..core import Infra, TRUSTED_COMMON, VERIF, build_and_audit, canon, enc_attrs_req, enc_id, finish, idkey, jhash, run_driver
-from ..fn import conclude
+from ..core import Infra, TRUSTED_COMMON, VERIF, build_and_audit, canon, enc_attrs_req, enc_id, finish, idkey, jhash, load_known, run_driver
 
 NET_CLASSES = ("Hypergraph", "DiHypergraph", "SimplicialComplex")
 CHEAP_STATS = ("degree", "order", "attrs")
@@ -537,7 +536,9 @@ def run(ctx, only_case=None):
             if r is None:
                 raise Infra(f"replay: no callable {only_case.get('site')} on this tree")
             print("replay:", "call ok" if r[0] else f"call raised {r[1]}", "| violations:", [c for c, _ in r[2]] or "none")
-            return finish(ctx, level="proof (partial)", trusted_base=TRUSTED_COMMON)
+            for c, d in r[2]:
+                print(f"VIOLATION property={ctx.prop} replay={only_case.get('_path', '<case>')}\n  class={c} detail={d[:400]}")
+            return 1 if r[2] else 0                    # a replay does not rewrite the evidence file
         for p in oracle_selftest(ctx):
             ctx.broken.append(p)
         specs = L.fixed_specs() + [L.random_spec(ctx.rng, k) for k in range(ctx.n(4, 40))]
@@ -616,7 +617,32 @@ def run(ctx, only_case=None):
         "set iteration order is not part of the snapshot (sets are compared as sets); dict orders are",
         "parameters documented as constructors (create_using) are factories, not input networks",
     ]
-    conclude(ctx, ok and not ctx.broken, dis)
+    # verdict: findings already listed as known must not hide a broken obligation / correspondence
+    known = {(k["site"], k["failure_class"]) for k in load_known() if k["property"] == ctx.prop}
+    fresh = [v for v in ctx.violations if (v["site"], v["failure_class"]) not in known]
+    if (dis or not ok or ctx.broken) and not fresh:
+        more = [L.random_spec(ctx.rng, 1000 + k) for k in range(ctx.n(12, 60))]      # search harder on the implementation
+        t1 = time.time()
+        env["tmp"] = tempfile.mkdtemp(prefix="c08-")
+        try:
+            for sp in more:
+                subj = Subject(sp)
+                for t in targets:
+                    obj = t.where(subj.net)
+                    if obj is None or time.time() - t1 > ctx.n(40, 300):
+                        continue
+                    try:
+                        for args, kwargs in plan_calls(t, subj.net, obj, ctx.rng, 3, env)[:6]:
+                            check_call(ctx, t, subj, args, kwargs, env)
+                            ctx.stats["targeted-search-calls"] += 1
+                    except Exception:  # noqa
+                        continue
+        finally:
+            shutil.rmtree(env["tmp"], ignore_errors=True)
+        fresh = [v for v in ctx.violations if (v["site"], v["failure_class"]) not in known]
+        if not fresh:
+            ctx.violation("model-tie", "unproven", {"broken": ctx.broken, "example": ctx.extra.get("disagreements", [])[:1]},
+                          detail="; ".join(ctx.broken)[:500], kind="unproven", broken=ctx.broken)
     return finish(ctx, level="proof (partial)", trusted_base=TRUSTED_COMMON + [
         "harness/c08_translate.py (introspection + AST scan; its table is cross-checked by the before/after run of every entry)",
         "private reads: copy.copy(H._edge_uid); vars(H) read generically for the raw state; H._node_attr/_edge_attr/_net_attr key order "
@@ -626,4 +652,6 @@ def run(ctx, only_case=None):
 
 def replay(ctx, path):
     j = json.load(open(path))
-    return run(ctx, only_case=j.get("case", j))
+    case = dict(j.get("case", j))
+    case["_path"] = path
+    return run(ctx, only_case=case)
